@@ -300,6 +300,12 @@ func (h *Harness) ChangeConfiguration() error {
 	return h.S.DidChangeConfiguration(context.Background(), &protocol.DidChangeConfigurationParams{})
 }
 
+// PushConfiguration sends the settings inside the notification, as a client without the
+// workspace/configuration capability does.
+func (h *Harness) PushConfiguration(settings any) error {
+	return h.S.DidChangeConfiguration(context.Background(), &protocol.DidChangeConfigurationParams{Settings: settings})
+}
+
 // OpenAndWait opens a document and returns the diagnostics published for it.
 func (h *Harness) OpenAndWait(uri, text string) ([]protocol.Diagnostic, error) {
 	if err := h.Open(uri, text); err != nil {
